@@ -121,11 +121,13 @@ def _integral_func(prog, rep, outer_q, tag):
 
 
 def _has_del(fn, name, idx_term, b):
+    """``del <list(range(n_dim))>[dim]`` on whatever local holds the list of dimensions."""
+    rng = ("call", G("list"), (("call", G("range"), (("attr", SELF, "n_dim"),), ()),), ())
     for st in cfg_of(fn).all_stmts():
         if isinstance(st, ast.Delete):
             for t in st.targets:
-                if isinstance(t, ast.Subscript) and isinstance(t.value, ast.Name) and t.value.id == name:
-                    if b.term(t.slice, st) == idx_term:
+                if isinstance(t, ast.Subscript) and isinstance(t.value, ast.Name):
+                    if b.term(t.slice, st) == idx_term and b.term(t.value, st) == rng:
                         return st
     return None
 
